@@ -221,11 +221,11 @@ fn irr(rng: &mut Rng, ctx: &mut Ctx) {
         let pad = Pad::default();
         let base = encode(&r);
         let (bl, bg) = read_line(&base, false, false);
-        let what = k % 5; // 0 unknown, 1 junk, 2 permute, 3 unknown+permute, 4 all
+        let what = k % 6; // 0 unknown, 1 junk, 2 permute, 3 unknown+permute, 4 all, 5 a frame event carried by Message Splitter blocks
         let mut per_frame: Vec<Vec<Vec<u8>>> = r.frames.iter().map(|f| frame_events(&r, f, &pad)).collect();
-        if what == 2 || what >= 3 { for f in per_frame.iter_mut() { permute_body(f, rng); } }
+        if what == 2 || what == 3 || what == 4 { for f in per_frame.iter_mut() { permute_body(f, rng); } }
         let mut body: Vec<Vec<u8>> = gecko_events(&r).into_iter().chain(per_frame.into_iter().flatten()).collect();
-        if what == 0 || what >= 3 {
+        if what == 0 || what == 3 || what == 4 {
             let ncodes = 1 + (rng.next() % 3) as usize; let mut codes: Vec<(u8, u16)> = vec![];
             while codes.len() < ncodes { let c = [0x11u8, 0x34, 0x3E, 0x3F, 0x0F, 0x00, 0xFF, 0x7B, 0x55, 0x7D][(rng.next() % 10) as usize]; if !KNOWN.contains(&c) && !codes.iter().any(|x| x.0 == c) { let size: u16 = match rng.next() % 14 { 0 => 1, 1 => 255, 2 => 256, 3 => 512, 4 => 516, 5 => 65534, 6 => 65535, _ => 1 + (rng.next() % 600) as u16 }; codes.push((c, size)); } }
             r.extra_payloads = codes.clone();
@@ -238,9 +238,19 @@ fn irr(rng: &mut Rng, ctx: &mut Ctx) {
                     e[1..5].copy_from_slice(&pick.to_be_bytes()); tags.push("unk-frameid".into()); }
                 let i = (rng.next() as usize) % (body.len() + 1); body.insert(i, e); }
         }
+        // the splitter is a generic container: any event may arrive as 512-byte blocks carrying its command byte; the reader reassembles and
+        // dispatches it like the plain event (the recorder only splits the Gecko list, the format does not say so)
+        let mut sizes = table(&r, &pad);
+        if what == 5 { let cand: Vec<usize> = (0..body.len()).filter(|&i| matches!(body[i][0], 0x3A | 0x37 | 0x3B | 0x38 | 0x3C)).collect();
+            if !cand.is_empty() { let i = cand[(rng.next() as usize) % cand.len()]; let e = body[i].clone(); let (code, pay) = (e[0], &e[1..]);
+                if !sizes.iter().any(|x| x.0 == 0x10) { sizes.push((0x10, 516)); }
+                let chunks: Vec<&[u8]> = pay.chunks(512).collect(); let mut blocks = vec![];
+                for (ci, ch) in chunks.iter().enumerate() { let mut b = vec![0x10u8]; b.extend_from_slice(ch); b.extend(std::iter::repeat(0u8).take(512 - ch.len())); b.extend((ch.len() as u16).to_be_bytes()); b.push(code); b.push((ci + 1 == chunks.len()) as u8); blocks.push(b); }
+                body.splice(i..i + 1, blocks); tags.push(format!("wrapped:{:02x}", code)); } }
         let mut junk = vec![];
         if (what == 1 || what == 4) && r.end.is_some() && !r.double_end { junk = rng.nbytes1(12); if junk.len() == 1 + r.end.as_ref().unwrap().len() && junk[0] == 0x39 { junk[0] = 0x38; } }
-        let x = assemble(&r, &table(&r, &pad), &body, &junk, &pad);
+        if what != 5 { sizes = table(&r, &pad); } // (extra_payloads were added to `r` above)
+        let x = assemble(&r, &sizes, &body, &junk, &pad);
         tags.push(format!("irr{}", what));
         // C08: same game as without the irregularities
         let hashed = k % 2 == 1;
@@ -250,6 +260,8 @@ fn irr(rng: &mut Rng, ctx: &mut Ctx) {
         if hashed { if let Some(g) = &g { let xx = format!("xxh3:{:016x}", xxhash_rust::xxh3::xxh3_64(&x)); if g.hash.as_deref() != Some(xx.as_str()) { c.fail("C11", format!("hash {:?} != XXH3-64 of the file {} (replay with unknown events / large payloads)", g.hash, xx)); } } }
         if l != bl { c.fail("C08", format!("game differs from the one parsed without the tolerated irregularities: {} vs {}", &l[..l.len().min(200)], &bl[..bl.len().min(200)])); if what == 2 { c.fail("C17", "permuted frame body changes the parsed game"); } }
         if let (Some(g), Some(bg)) = (&g, &bg) { if start_json(&g.start) != start_json(&bg.start) || end_json(&g.end) != end_json(&bg.end) || g.metadata != bg.metadata { c.fail("C08", "start/end/metadata differ from the regular parse"); } }
+        // the history-based frame oracle (spec offsets, presence, rows per frame) holds of the irregular file as of the regular one
+        if let Some(g) = &g { check_frames(&r, g, &mut c); }
         ctx.push(c);
         // the same irregular file through a source that returns short reads: unknown payloads are skipped by the same exact reads
         if k % 2 == 0 { let (plan, pname) = plans(rng, x.len(), k / 2); let fl = read_line_chunked(&x, false, hashed, plan);
@@ -586,6 +598,8 @@ fn norm(rng: &mut Rng, ctx: &mut Ctx) {
     };
     // boundaries of every mapped range, in every run
     for u in [0xff00u32, 0xff01, 0xff02, 0xff5d, 0xff5e, 0xff5f, 0x3000, 0x2fff, 0x3001, 0x2019, 0x2018, 0x201a, 0x201d, 0x201c, 0x201e, 0x20, 0x21, 0x7e, 0x7f, 0, 0xd7ff, 0xe000, 0x10ffff, 0xfee0, 0xff20, 0xff21, 0xff3a, 0xff41] { one(vec![char::from_u32(u).unwrap()], ctx); }
+    // every character of the mapped block U+FF01..U+FF5E and its neighbours, one by one and embedded, in every run (the block spans two UTF-8 lead sequences)
+    for u in 0xfef0u32..=0xff70 { if let Some(ch) = char::from_u32(u) { one(vec![ch], ctx); one(vec!['a', ch, 'b'], ctx); } }
     if ctx.thorough { let mut u = 0u32; while u < 0x110000 { let chunk: Vec<char> = (u..(u + 64).min(0x110000)).filter_map(char::from_u32).collect(); if !chunk.is_empty() { one(chunk, ctx); } u += 64; } }
     for _ in 0..ctx.n { let len = 1 + (rng.next() % 12) as usize; let cps: Vec<char> = (0..len).filter_map(|_| char::from_u32(match rng.next() % 5 { 0 => 0xff00 + (rng.next() % 0x70) as u32, 1 => [0x3000u32, 0x2019, 0x201d, 0x2018][(rng.next() % 4) as usize], 2 => (rng.next() % 128) as u32, 3 => (rng.next() % 0x110000) as u32, _ => 0x3040 + (rng.next() % 0x60) as u32 })).collect(); if !cps.is_empty() { one(cps, ctx); } }
     // field decoding: all single bytes and a sweep of byte pairs in a 16-byte name-tag field, NUL at every position, garbage after the NUL
@@ -609,7 +623,12 @@ fn norm(rng: &mut Rng, ctx: &mut Ctx) {
 // ------------------------------------------------------------------ .slpp reader: unknown entries, version gate (C18)
 
 fn tar_entries(a: &[u8]) -> Vec<(String, Vec<u8>)> { let mut out = vec![]; for e in tar::Archive::new(Cursor::new(a)).entries().unwrap() { let mut e = e.unwrap(); let name = e.path().unwrap().to_string_lossy().to_string(); let mut c = vec![]; e.read_to_end(&mut c).unwrap(); out.push((name, c)); } out }
-fn tar_build(es: &[(String, Vec<u8>)]) -> Vec<u8> { let mut b = tar::Builder::new(vec![]); for (n, c) in es { let mut h = tar::Header::new_gnu(); h.set_size(c.len() as u64); h.set_path(n).unwrap(); h.set_mode(0o644); h.set_cksum(); b.append(&h, &c[..]).unwrap(); } b.into_inner().unwrap() }
+/// names `DIR:<path>` make a directory member (what `tar cf x -C dir .` emits first), `RAW:<hex>` puts the bytes into the name field as they are (a name that is not UTF-8)
+fn tar_build(es: &[(String, Vec<u8>)]) -> Vec<u8> { let mut b = tar::Builder::new(vec![]); for (n, c) in es { let mut h = tar::Header::new_gnu();
+        if let Some(d) = n.strip_prefix("DIR:") { h.set_entry_type(tar::EntryType::Directory); h.set_size(0); h.set_path(d).unwrap(); h.set_mode(0o755); h.set_cksum(); b.append(&h, &[][..]).unwrap(); continue; }
+        h.set_size(c.len() as u64);
+        if let Some(x) = n.strip_prefix("RAW:") { let raw: Vec<u8> = (0..x.len() / 2).map(|i| u8::from_str_radix(&x[2 * i..2 * i + 2], 16).unwrap()).collect(); let name = &mut h.as_old_mut().name; for (i, v) in raw.iter().enumerate().take(99) { name[i] = *v; } } else { h.set_path(n).unwrap(); }
+        h.set_mode(0o644); h.set_cksum(); b.append(&h, &c[..]).unwrap(); } b.into_inner().unwrap() }
 
 /// C18 at byte level: the written archive walked by hand (not with the `tar` crate) — 512-byte blocks, header name / octal size /
 /// checksum, zero padding, two zero blocks at the end — and handed to the byte-level tar model (`tarchk`), which must list it and
@@ -703,7 +722,7 @@ fn pread(rng: &mut Rng, ctx: &mut Ctx) {
         if k % 2 == 0 {
             // extra unknown entries anywhere before frames.arrow (never before peppi.json: the signature must stay first)
             let mut es2 = es.clone(); let lim = es2.iter().position(|e| e.0 == "frames.arrow").unwrap_or(es2.len());
-            for _ in 0..1 + rng.next() % 3 { let i = 1 + (rng.next() as usize) % lim.max(1).min(es2.len()); let i = i.min(es2.iter().position(|e| e.0 == "frames.arrow").unwrap_or(es2.len())); es2.insert(i, (["notes.txt", "extra.json", "thumb.png", "start.raw.bak", "frames.arrow.old"][(rng.next() % 5) as usize].to_string(), rng.nbytes(700))); }
+            for _ in 0..1 + rng.next() % 3 { let i = 1 + (rng.next() as usize) % lim.max(1).min(es2.len()); let i = i.min(es2.iter().position(|e| e.0 == "frames.arrow").unwrap_or(es2.len())); es2.insert(i, (["notes.txt", "extra.json", "thumb.png", "start.raw.bak", "frames.arrow.old", "DIR:./", "DIR:extras/", "extras/thumbnail.png", "RAW:72e973756de92e747874", "RAW:ff", "a/b/c/start.raw.d/x"][(rng.next() % 11) as usize].to_string(), rng.nbytes(700))); }
             let a2 = tar_build(&es2);
             let res = std::panic::catch_unwind(|| peppi::io::peppi::read(Cursor::new(&a2), None).map(|g| game_sig(&g)).map_err(|e| e.to_string()));
             match res { Ok(Ok(s)) => { c.impl_out = "ok same".into(); if s != full { c.impl_out = "ok different".into(); c.fail("C18", "unknown archive entries change the game that is read"); } } Ok(Err(e)) => { c.impl_out = format!("err {}", e); c.fail("C18", format!("archive with unknown entries rejected: {}", e)); } Err(_) => { c.impl_out = "panic".into(); c.fail("C18", "reader panicked on unknown archive entries"); } }
